@@ -12,11 +12,20 @@ STRENGTHENED = {
  "C20-m2": "missed at first (override inside an import cycle falls into known finding D13's class); caught after the D13 class was pinned on a deterministic override + multi-path corpus (regress/C20/D13-pins.json)",
  "C11-m2": "the sub-agent's diff touched the lines repaired by fix F16 and was ported by hand onto the repaired code (failed heads also set the span end)",
  "C19-m1": "ported by hand onto the repaired keyword code (fix F13): keyword terminals rank 2 characters longer in the action order",
+ "C07-m3": "round 2; missed at first (the scan order breaks ties by terminal name and every regex name sorted before the string names); caught after regex terminals whose names sort after/before the string terminals' names were added to the pool",
+ "C08-m3": "round 2; missed at first; caught after terminals that match across a space (a(\\ a)? next to a) were added: heads with different layout ahead then meet in one GSS node",
+ "C06-m3": "round 2; missed at first (needs a shared priority outside CPython's small-integer cache); caught after priorities 255..70000 were added",
+ "C04-m4": "round 2; not visible to C04/C05 (duplicate state ids only matter after a save/load); caught by C12 after the round-trip clause was strengthened to walk the saved and the loaded automaton in lock step and the refused-merge family was added to it",
+ "C09-m4": "round 2; would have been missed (the reference took the alternative index from parglare's own numbering); the reference now decides the alternative from the children's symbols and rules defined in two places are generated; caught",
+ "C11-m4": "round 2; would have been missed; the 'raises the last SyntaxError' clause now compares the raised error with the last error handed to the (wrapped) strategy; caught",
+ "C12-m3": "round 2; would have been missed with one import level; a second-level import (leaf.pg) with edit/touch operations was added before it was run; caught",
+ "C02-m3": "round 2; crossing lexical overlap (a|ab|bc|c on 'abc') was added as a lexicon family before it was run; caught",
+ "C03-m4": "round 2; forests beyond 2**63 trees (41 tokens of S: S S | a) were added before it was run; caught",
  "C19-m2": "ported by hand onto the repaired keyword code (fix F13): KEYWORD regex run over the lower-cased text but compared with the original text",
 }
-ALSO = {"C01-m1": ["C02"], "C01-m2": ["C02", "C04", "C05"], "C02-m2": ["C01"], "C04-m1": ["C05"], "C04-m2": ["C05"], "C13-m2": ["C09"],
+ALSO = {"C04-m3": ["C05"], "C04-m4": ["C12"], "C01-m1": ["C02"], "C01-m2": ["C02", "C04", "C05"], "C02-m2": ["C01"], "C04-m1": ["C05"], "C04-m2": ["C05"], "C13-m2": ["C09"],
         "C16-m2": ["C12"]}
-NOT = {"C16-m2": ["C16"], "C02-m1": ["C01"]}
+NOT = {"C16-m2": ["C16"], "C02-m1": ["C01"], "C04-m4": ["C04", "C05"]}
 for d in sorted(glob.glob('/verif/seeded/C*-m*')):
     mid = os.path.basename(d)
     prop = mid.split('-')[0]
@@ -32,7 +41,7 @@ for d in sorted(glob.glob('/verif/seeded/C*-m*')):
         "checks_run": "tools_mut.sh: git -C /repo apply patch.diff; python -m pv.run <property> --tier quick; undo",
         "detected_by_quick_checks": det,
         "not_detected_by": NOT.get(mid, []),
-        "history": STRENGTHENED.get(mid, "caught by the property's quick check as first built"),
+        "history": STRENGTHENED.get(mid, ("round 2; " if int(mid.split("-m")[1]) >= 3 else "") + "caught by the property's quick check as it stood"),
     }
     json.dump(meta, open(os.path.join(d, 'meta.json'), 'w'), indent=1)
 print("ok")
